@@ -118,6 +118,9 @@ pub fn describe(arg: u64, raw: bool) -> String {
 pub enum Ty {
     E,
     O,
+    /// OccupiedEntry created through `Entry::insert`: holds no spare key, so `replace_entry` /
+    /// `replace_key` panic by (hashbrown's documented) design and are not generated.
+    ONoKey,
     V,
     R,
     RE,
@@ -133,8 +136,9 @@ pub fn methods(t: Ty) -> Vec<(u8, Ty)> {
     let ro = vec![(RO_KEY, RO), (RO_KEY_MUT, RO), (RO_INTO_KEY, Done), (RO_GET, RO), (RO_INTO_MUT, R), (RO_GET_MUT, RO), (RO_GET_KEY_VALUE, RO), (RO_GET_KEY_VALUE_MUT, RO), (RO_INTO_KEY_VALUE, R), (RO_INSERT, RO), (RO_INSERT_KEY, RO), (RO_REMOVE, Done), (RO_REMOVE_ENTRY, Done), (RO_REPLACE_WITH_SOME, RE), (RO_REPLACE_WITH_NONE, RE)];
     let rv = vec![(RV_INSERT, R), (RV_INSERT_HASHED, R), (RV_INSERT_WITH_HASHER, R)];
     match t {
+        ONoKey => o.into_iter().filter(|&(m, _)| m != O_REPLACE_ENTRY && m != O_REPLACE_KEY).map(|(m, t)| (m, if t == O { ONoKey } else { t })).collect(),
         E => {
-            let mut m = vec![(E_INSERT, O), (E_OR_INSERT, R), (E_OR_INSERT_WITH, R), (E_OR_INSERT_WITH_KEY, R), (E_OR_DEFAULT, R), (E_KEY, E), (E_AND_MODIFY, E), (E_AND_REPLACE_SOME, E), (E_AND_REPLACE_NONE, E)];
+            let mut m = vec![(E_INSERT, ONoKey), (E_OR_INSERT, R), (E_OR_INSERT_WITH, R), (E_OR_INSERT_WITH_KEY, R), (E_OR_DEFAULT, R), (E_KEY, E), (E_AND_MODIFY, E), (E_AND_REPLACE_SOME, E), (E_AND_REPLACE_NONE, E)];
             m.extend(o);
             m.extend(v);
             m
@@ -163,7 +167,13 @@ pub fn all_chains(start: Ty, depth: usize) -> Vec<Vec<u8>> {
         if depth == 0 {
             return;
         }
+        // a handle that descends from `Entry::insert` holds no spare key: `replace_entry` /
+        // `replace_key` panic by hashbrown's documented design
+        let nokey = cur.contains(&E_INSERT);
         for (m, nt) in methods(t) {
+            if nokey && (m == O_REPLACE_ENTRY || m == O_REPLACE_KEY) {
+                continue;
+            }
             // two read-only accessors in a row add nothing
             if readonly(m) && cur.last().map_or(false, |&p| readonly(p)) {
                 continue;
@@ -192,13 +202,22 @@ enum St<'a, K, V> {
 
 /// The reference map, with every mutation under a `harness` guard (its node allocations are not
 /// the subject's).
-pub struct RefMap<'a>(pub &'a mut BTreeMap<u32, u32>);
+pub struct RefMap<'a>(pub &'a mut BTreeMap<u32, u32>, pub &'a mut ChainInfo);
 impl RefMap<'_> {
     pub fn insert(&mut self, k: u32, v: u32) -> Option<u32> {
-        harness(|| self.0.insert(k, v))
+        let o = harness(|| self.0.insert(k, v));
+        if o.is_none() {
+            self.1.inserted = true;
+            self.1.inserts += 1;
+        }
+        o
     }
     pub fn remove(&mut self, k: &u32) -> Option<u32> {
-        harness(|| self.0.remove(k))
+        let o = harness(|| self.0.remove(k));
+        if o.is_some() {
+            self.1.removed = true;
+        }
+        o
     }
     pub fn get(&self, k: &u32) -> Option<&u32> {
         self.0.get(k)
@@ -210,6 +229,10 @@ impl RefMap<'_> {
         self.0.contains_key(k)
     }
     pub fn or_insert(&mut self, k: u32, v: u32) -> u32 {
+        if !self.0.contains_key(&k) {
+            self.1.inserted = true;
+            self.1.inserts += 1;
+        }
         harness(|| *self.0.entry(k).or_insert(v))
     }
 }
@@ -222,8 +245,28 @@ pub fn nv(r: &BTreeMap<u32, u32>, k: u32) -> u32 {
 
 /// Run an entry chain on the subject, mirroring it on the reference and checking every accessor.
 /// Returns a digest of the observations.
-pub fn run_entry_chain<K: El, V: El>(m: &mut M<K, V>, r: &mut BTreeMap<u32, u32>, key: u32, arg: u64, raw: bool) -> VResult<u64> {
-    let r = &mut RefMap(r);
+#[derive(Clone, Copy, Debug, Default)]
+pub struct ChainInfo {
+    pub obs: u64,
+    /// the chain stored a new element (the key was absent at that point)
+    pub inserted: bool,
+    /// number of insertions of a new element the chain performed
+    pub inserts: u32,
+    /// the chain removed an element
+    pub removed: bool,
+}
+
+pub fn run_entry_chain<K: El, V: El>(m: &mut M<K, V>, r: &mut BTreeMap<u32, u32>, key: u32, arg: u64, raw: bool) -> VResult<ChainInfo> {
+    let mut info = ChainInfo::default();
+    let res = run_entry_chain_inner::<K, V>(m, r, key, arg, raw, &mut info);
+    res.map(|obs| {
+        info.obs = obs;
+        info
+    })
+}
+
+fn run_entry_chain_inner<K: El, V: El>(m: &mut M<K, V>, r: &mut BTreeMap<u32, u32>, key: u32, arg: u64, raw: bool, info: &mut ChainInfo) -> VResult<u64> {
+    let r = &mut RefMap(r, info);
     let lk = K::norm(key);
     let (builder, code) = if raw { (arg & 3, arg >> 2) } else { (0, arg) };
     let ms = harness(|| decode(code));
